@@ -291,6 +291,19 @@ Theorem C20_dictionary_completion :
   (0 <= missing)%Q /\ ((qsum (map snd cp) <= 1)%Q -> (missing == 1 - qsum (map snd cp))%Q).
 Proof. exact fill_probabilities_spec. Qed.
 
+(** LabelDirichletInjector: the table handed to the probability injector is [combine keys draw] in
+    dict insertion order — the i-th component of the draw (drawn with the i-th weight) belongs to
+    the i-th key, for keys that are pairwise different and equal to themselves *)
+Theorem C20_dirichlet_assignment :
+  forall (N : Num) (tol : F N) from to col (keys dir : list (F N)) positions d,
+  label_dirichlet N tol from to col keys dir positions d =
+    label_probability N tol from to col (combine keys dir) positions d /\
+  forall (i : nat) k v,
+    nth_error keys i = Some k -> nth_error dir i = Some v -> feqb k k = true ->
+    (forall j k', (j < i)%nat -> nth_error keys j = Some k' -> feqb k k' = false) ->
+    lookup N k (combine keys dir) = Some v.
+Proof. intros. split; [reflexivity|]. intros. eapply lookup_combine; eauto. Qed.
+
 (** ** 10. FeatureCoverInjector (given a legal answer of pandas' group sampling) *)
 Theorem C20_cover :
   forall (A : Type) (eqb ltb : A -> A -> bool) (dflt : A) (col : nat) size idxs (d : list (list A)),
@@ -475,6 +488,7 @@ Print Assumptions C20_probability_class_mass.
 Print Assumptions C20_probability_class_mass_exact.
 Print Assumptions C20_probability_blocks_over_pool.
 Print Assumptions C20_dictionary_completion.
+Print Assumptions C20_dirichlet_assignment.
 Print Assumptions C20_cover.
 Print Assumptions C20_unique_classes.
 Print Assumptions C20_container_preserved.
